@@ -212,4 +212,103 @@ static int pumpHandshake(ssl_t *cli, ssl_t *srv)
     return (cliDone && srvDone) ? 0 : -1;
 }
 
+/* The session refused what it was fed: negative rc or a fatal alert queued */
+static int rejected(ssl_t *ssl, int32 rc)
+{
+    return rc < 0 || (ssl->flags & SSL_FLAGS_ERROR);
+}
+
+/* Control case: honest handshakes of the given version must still work - a
+   full one (with a NewSessionTicket issued by the server) followed by a
+   resumed one, with application data both ways.  Returns 0 when fine. */
+static int controlHandshakes(psProtocolVersion_t ver, psCipher16_t suite)
+{
+    sslKeys_t *sk = loadServerKeys(1), *ck = loadClientKeys(1);
+    sslSessionId_t *sid = NULL;
+    sslSessOpts_t so, co;
+    psCipher16_t suites[1];
+    int round, saved = g_certCbCalls;
+
+    suites[0] = suite;
+    if (!sk || !ck || matrixSslNewSessionId(&sid, NULL) < 0)
+    {
+        return -1;
+    }
+    for (round = 0; round < 2; round++)
+    {
+        ssl_t *srv = NULL, *cli = NULL;
+        unsigned char *m, app[64], *wb;
+        int32 l, appLen = 0, rc;
+
+        memset(&so, 0, sizeof(so)); memset(&co, 0, sizeof(co));
+        matrixSslSessOptsSetServerTlsVersionRange(&so, ver, ver);
+        matrixSslSessOptsSetClientTlsVersionRange(&co, ver, ver);
+        co.ticketResumption = 1;
+        if (matrixSslNewServerSession(&srv, sk, NULL, &so) < 0 ||
+            matrixSslNewClientSession(&cli, ck, sid, suites, 1, certCb, NULL, NULL,
+                NULL, &co) < 0)
+        {
+            printf("CONTROL: session create failed\n");
+            return -1;
+        }
+        if (pumpHandshake(cli, srv) < 0)
+        {
+            printf("CONTROL: honest handshake %d failed\n", round);
+            return -1;
+        }
+        /* post-handshake server output (TLS 1.3 NewSessionTicket) */
+        m = takeOut(srv, &l, NULL);
+        if (l > 0 && feed(cli, m, l, NULL, NULL) < 0)
+        {
+            printf("CONTROL: client refused post-handshake server data\n");
+            return -1;
+        }
+        free(m);
+        if (matrixSslGetWritebuf(cli, &wb, 4) < 4)
+        {
+            return -1;
+        }
+        memcpy(wb, "ping", 4);
+        matrixSslEncodeWritebuf(cli, 4);
+        m = takeOut(cli, &l, NULL);
+        rc = feed(srv, m, l, app, &appLen);
+        free(m);
+        if (rc < 0 || appLen != 4 || memcmp(app, "ping", 4))
+        {
+            printf("CONTROL: client->server data failed (%d)\n", rc);
+            return -1;
+        }
+        appLen = 0;
+        if (matrixSslGetWritebuf(srv, &wb, 4) < 4)
+        {
+            return -1;
+        }
+        memcpy(wb, "pong", 4);
+        matrixSslEncodeWritebuf(srv, 4);
+        m = takeOut(srv, &l, NULL);
+        rc = feed(cli, m, l, app, &appLen);
+        free(m);
+        if (rc < 0 || appLen != 4 || memcmp(app, "pong", 4))
+        {
+            printf("CONTROL: server->client data failed (%d)\n", rc);
+            return -1;
+        }
+        if (round == 1)
+        {
+            int resumed = (ver == v_tls_1_3) ? (int) cli->sec.tls13UsingPsk :
+                (int) matrixSslIsResumedSession(cli);
+            if (!resumed)
+            {
+                printf("CONTROL: second handshake was not resumed\n");
+                return -1;
+            }
+        }
+        matrixSslDeleteSession(cli);
+        matrixSslDeleteSession(srv);
+    }
+    g_certCbCalls = saved;
+    printf("CONTROL OK: honest full + resumed handshakes and data exchange work\n");
+    return 0;
+}
+
 #endif
